@@ -142,6 +142,71 @@ func (e *Exec) intrinsic(st *State, fr *Frame, ci *callInfo) (Value, bool, bool)
 	case "(*sync/atomic.Bool).Load":
 		used()
 		return scalar(tBool, e.loadGhost(st, "atomicBool", SBool, a[0].L[0])), true, false
+	case "encoding/json.Unmarshal":
+		// reflection-driven; modelled for a pointer-to-struct target whose type is
+		// statically known: every field of the target may be set to any decoded
+		// value (nested objects are freshly allocated); nothing else is written;
+		// nested values with their own UnmarshalJSON satisfy its postconditions.
+		tv := a[1]
+		if tv.Dyn == nil || tv.DynV == nil {
+			break
+		}
+		pt, ok := tv.Dyn.Underlying().(*types.Pointer)
+		if !ok {
+			break
+		}
+		stt, ok := pt.Elem().Underlying().(*types.Struct)
+		if !ok || !transparentStruct(pt.Elem()) {
+			break
+		}
+		used()
+		target := *tv.DynV
+		p := target.P
+		if p == nil {
+			p = &Place{Kind: PObj, Base: target.L[0], Typ: pt.Elem()}
+		}
+		before := st.allocTop
+		nt := e.freshConst("top.json", SInt)
+		st.assert(Ge(nt, st.allocTop))
+		st.allocTop = nt
+		nv := e.freshValue(st, pt.Elem(), "json."+typeKey(pt.Elem()))
+		for i, l := range flatten(pt.Elem()) {
+			if l.Kind == KRef {
+				st.assert(Or(Eq(nv.L[i], Zero), Gt(nv.L[i], before)))
+			}
+		}
+		zeroSliceOffsets(&nv)
+		e.storePlace(st, p, nv)
+		e.emit(st, Event{Name: "JsonUnmarshal", Args: []Term{target.L[0]}, Pos: ci.pos})
+		res := e.freshValue(st, ci.sig.Results().At(0).Type(), "json.err")
+		// nested UnmarshalJSON postconditions
+		for i := 0; i < stt.NumFields(); i++ {
+			ft := stt.Field(i).Type()
+			fpt, ok := ft.Underlying().(*types.Pointer)
+			if !ok {
+				continue
+			}
+			c := e.eng.specs.Funcs["(*"+typeKey(fpt.Elem())+").UnmarshalJSON"]
+			if c == nil {
+				continue
+			}
+			fv := fieldOf(nv, i)
+			env := &SpecEnv{e: e, st: st, vars: map[string]Value{}, pkg: fr.fn.Pkg.Pkg, what: "nested " + c.Key}
+			if fn := e.eng.funcs[c.Key]; fn != nil && len(fn.Params) > 0 {
+				env.vars[fn.Params[0].Name()] = fv
+			}
+			env.vars["err"] = zeroValue(types.Universe.Lookup("error").Type())
+			for _, en := range c.Ensures {
+				if mentionsTrace(en.Expr) {
+					continue
+				}
+				if t, err := env.evalBool(en.Expr); err == nil {
+					st.assert(Implies(And(Neq(fv.L[0], Zero), Eq(res.L[0], Zero)), t))
+				}
+			}
+			e.usedContracts[c.Key] = true
+		}
+		return res, true, false
 	case "fmt.Sprintf", "fmt.Errorf":
 		// deterministic: the result is an uninterpreted function of the format
 		// and of the (unboxed) arguments when they are statically known
